@@ -551,3 +551,166 @@ Section Mirror.
       rewrite E, combine_nil. reflexivity.
   Qed.
 End Mirror.
+
+(* ---------------------------------------------------------------- the executable sort satisfies the hypotheses *)
+Section IsortProps.
+  Context {A : Type} (less : A -> A -> bool).
+
+  Lemma insert_perm x l : Permutation (insert less x l) (x :: l).
+  Proof.
+    induction l as [|y t IH]; cbn; auto. destruct (less y x); auto.
+    rewrite IH. apply perm_swap.
+  Qed.
+
+  Lemma isort_perm l : Permutation (isort less l) l.
+  Proof. unfold isort. induction l; cbn [fold_right]; auto. rewrite insert_perm. auto. Qed.
+
+  Hypothesis less_asym : forall a b, less a b = true -> less b a = false.
+  Hypothesis less_negtrans : forall a b c, less b a = false -> less c b = false -> less c a = false.
+
+  Definition desc (x y : A) : Prop := less y x = false.
+
+  Lemma insert_sorted x l : StronglySorted desc l -> StronglySorted desc (insert less x l).
+  Proof.
+    induction 1 as [|y t S IH F]; cbn. repeat constructor.
+    destruct (less y x) eqn:E.
+    - constructor; auto. rewrite Forall_forall in *. intros z Hz.
+      apply (Permutation_in _ (insert_perm x t)) in Hz. destruct Hz as [<-|Hz].
+      apply less_asym; auto. apply F; auto.
+    - constructor. constructor; auto. constructor; auto.
+      rewrite Forall_forall in *. intros z Hz. unfold desc in *. eapply less_negtrans; eauto.
+  Qed.
+
+  Lemma isort_sorted l : StronglySorted desc (isort less l).
+  Proof. unfold isort. induction l; cbn [fold_right]. constructor. now apply insert_sorted. Qed.
+End IsortProps.
+
+Lemma isort_param {A B} (less : A -> A -> bool) (less' : B -> B -> bool) (g : A -> B) :
+  (forall a b, less' (g a) (g b) = less a b) ->
+  forall l, isort less' (map g l) = map g (isort less l).
+Proof.
+  intros H. unfold isort. induction l as [|x l IH]; cbn [map fold_right]; auto. rewrite IH. clear IH.
+  induction (fold_right (insert less) [] l) as [|y t IH]; cbn [map insert]; auto.
+  rewrite H. destruct (less y x); cbn [map]; now rewrite ?IH.
+Qed.
+
+Lemma isortW_param {amp} (agt : amp -> amp -> bool) (f : N -> N) (l : list (N * amp)) :
+  isort (lessW agt) (map (fun h => (f (fst h), snd h)) l)
+  = map (fun h => (f (fst h), snd h)) (isort (lessW agt) l).
+Proof. apply isort_param. reflexivity. Qed.
+
+(* rotation equivariance of the executable binary64 skeleton (the one the differential run replays):
+   only the shape law of the block kernel is assumed *)
+Theorem rotation_equivariant_f_lemma zf D P (ws : list (option N)) (pads : list (list (option N))) k :
+  (forall l, length (D l) = length l) ->
+  wf ws -> N.of_nat (length pads) = NCOLS -> ~ full_ring ws -> k < 32 ->
+  Permutation (avalanches_f zf D P (rotw (8 * k) ws) (rotc k pads))
+              (map (shift_wire (8 * k)) (avalanches_f zf D P ws pads)).
+Proof.
+  intros HD. unfold avalanches_f. apply rotation_equivariant_lemma; auto.
+  intros f l. apply isortW_param.
+Qed.
+
+(* ---------------------------------------------------------------- a small exact instance (amplitudes and z in Z) *)
+Module Toy.
+  Local Open Scope Z_scope.
+  Definition apos (v : Z) : bool := 0 <? v.
+  Definition agt (a b : Z) : bool := b <? a.
+  Definition zf (r : N) (f m l : Z) : Z := 2 * (2 * Z.of_N r - 575) + (l - f).
+  Definition P (s : list Z) : list Z := s.
+  Definition sortW := isort (@lessW Z agt).
+  Definition sortP := isort (@lessP Z Z agt).
+  Definition av (D : list (list Z) -> list (list Z)) := avalanches 0 apos agt zf D P sortW sortP.
+
+  Lemma zf_antisym r f m l : (r <= 575)%N -> zf (575 - r) l m f = - zf r f m l.
+  Proof. unfold zf. intros. lia. Qed.
+  Lemma agt_total a b : a <> b -> agt a b = true \/ agt b a = true.
+  Proof. unfold agt. lia. Qed.
+  Lemma sortP_perm l : Permutation (sortP l) l.
+  Proof. apply isort_perm. Qed.
+  Lemma sortP_sorted l : StronglySorted (descP agt) (sortP l).
+  Proof.
+    apply (isort_sorted (@lessP Z Z agt)); unfold lessP, agt; intros; lia.
+  Qed.
+  Lemma sortW_param (f : N -> N) l :
+    sortW (map (fun h => (f (fst h), snd h)) l) = map (fun h => (f (fst h), snd h)) (sortW l).
+  Proof. apply isortW_param. Qed.
+
+  (* the hypotheses of both theorems are satisfiable together *)
+  Theorem toy_rotation D ws pads k : (forall l, length (D l) = length l) ->
+    wf ws -> N.of_nat (length pads) = NCOLS -> ~ full_ring ws -> (k < 32)%N ->
+    Permutation (av D (rotw (8 * k) ws) (rotc k pads)) (map (shift_wire (8 * k)) (av D ws pads)).
+  Proof. intros. apply rotation_equivariant_lemma; auto. apply sortW_param. Qed.
+
+  Theorem toy_mirror D ws pads :
+    Forall (fun col => N.of_nat (length col) = NROWS) pads -> NoPadTie 0 apos agt zf P pads ->
+    av D ws (mirror pads) = map (neg_z Z.opp) (av D ws pads).
+  Proof.
+    intros. apply mirror_equivariant_lemma; auto.
+    apply zf_antisym. apply agt_total. apply sortP_perm. apply sortP_sorted.
+  Qed.
+
+  (* ---- events ---- *)
+  Definition mkws (f : N -> option (list Z)) : list (option (list Z)) := map f (Nseq 0 NW).
+  Definition mkpads (f : N -> N -> option (list Z)) : list (list (option (list Z))) :=
+    map (fun c => map (f c) (Nseq 0 NROWS)) (Nseq 0 NCOLS).
+  Definition peak (c0 r0 : N) (c r : N) : option (list Z) :=
+    if (c =? c0)%N then
+      if (r + 1 =? r0)%N then Some [0; 30] else if (r =? r0)%N then Some [0; 80]
+      else if (r =? r0 + 1)%N then Some [0; 40] else None
+    else None.
+  Definition orelse {A} (a b : option A) := match a with Some _ => a | None => b end.
+
+  (* F6 (DESIGN.md A.12): wires 94..108 present, hits on 100 (amp 100) and 102 (amp 60) in one time bin,
+     two identical pad peaks 30/80/40 at rows 99-101 and 299-301 of column 11 *)
+  Definition ws6 := mkws (fun i => if (94 <=? i)%N && (i <=? 108)%N
+                                   then Some (if (i =? 100)%N then [0; 100] else if (i =? 102)%N then [0; 60] else [0; 0])
+                                   else None).
+  Definition pads6 := mkpads (fun c r => orelse (peak 11 100 c r) (peak 11 300 c r)).
+  Definition Did (l : list (list Z)) := l.
+
+  (* F3: all 256 wires present, one hit on wire 0; a block kernel whose answer depends on the position
+     inside the block (here: the first wire of the block is scaled by 2), as a banded solve does *)
+  Definition ws3 := mkws (fun i => Some (if (i =? 0)%N then [0; 100] else [0; 0])).
+  Definition pads3 := mkpads (peak 31 100).
+  Definition D3 (l : list (list Z)) := match l with x :: rest => map (Z.mul 2) x :: rest | [] => [] end.
+End Toy.
+
+Lemma toy_av6 : Toy.av Toy.Did Toy.ws6 Toy.pads6
+                = [Aval 100 1 (-740)%Z 100%Z 80%Z; Aval 102 1 60%Z 60%Z 80%Z].
+Proof. vm_compute. reflexivity. Qed.
+
+(* witness for the class pad_amplitude_tie: every other hypothesis of mirror_equivariant holds, the
+   two pad hits of time bin 1 in column 11 tie, and the conclusion fails (wire 100 is paired with
+   z = -60 instead of +740) *)
+Theorem pad_tie_witness_lemma :
+  Forall (fun col => N.of_nat (length col) = NROWS) Toy.pads6 /\
+  ~ NoPadTie 0%Z Toy.apos Toy.agt Toy.zf Toy.P Toy.pads6 /\
+  Toy.av Toy.Did Toy.ws6 (mirror Toy.pads6) <> map (neg_z Z.opp) (Toy.av Toy.Did Toy.ws6 Toy.pads6).
+Proof.
+  split; [|split].
+  - apply Forall_forall. intros col Hc. unfold Toy.pads6, Toy.mkpads in Hc.
+    apply in_map_iff in Hc as (c & <- & _). now rewrite map_length, Nseq_length, N2Nat.id.
+  - intros H. specialize (H 11%nat 1%nat). vm_compute in H.
+    inversion H as [|? ? H1 H2]; subst. apply H1. left; reflexivity.
+  - vm_compute. discriminate.
+Qed.
+
+(* witness for the class full_ring_256: with all wires present the conclusion of rotation_equivariant
+   fails for a position-dependent block kernel *)
+Theorem rotation_full_ring_refuted_lemma :
+  exists (D : list (list Z) -> list (list Z)) ws pads k,
+    (forall l, length (D l) = length l) /\ wf ws /\ N.of_nat (length pads) = NCOLS /\
+    full_ring ws /\ k < 32 /\
+    ~ Permutation (Toy.av D (rotw (8 * k) ws) (rotc k pads))
+                  (map (shift_wire (8 * k)) (Toy.av D ws pads)).
+Proof.
+  exists Toy.D3, Toy.ws3, Toy.pads3, 1. split; [|split; [|split; [|split; [|split]]]].
+  - intros [|x l]; reflexivity.
+  - reflexivity.
+  - reflexivity.
+  - intros i Hi. unfold Toy.ws3, Toy.mkws, get.
+    rewrite nth_error_map, Nseq_nth_error by (unfold NW in *; lia). reflexivity.
+  - lia.
+  - intros HP. vm_compute in HP. apply Permutation_length_1 in HP. discriminate.
+Qed.
